@@ -99,6 +99,9 @@ META["rule"] += (
 META["rule"] += (
     " " + 'Added after the third round: records of 32769 / 40001 (thorough also 65537, 70001) samples through the shuffle, Fourier, AAFT and refined AAFT methods.')
 
+META["rule"] += (
+    " " + "Added after the fifth round: after a twin-surrogate walk, twins(threshold, min_dist) is asked again both positionally (the method's own cache key) and as the caller wrote it; a twin listed twice is a finding of its own.")
+
 # --------------------------------------------------------------------------
 # data
 # --------------------------------------------------------------------------
